@@ -43,7 +43,7 @@ func checkC09(c *Ctx, w *World) {
 		if s.Fn != gai {
 			continue
 		}
-		eq, wit := dcs.Equiv(dcs.OnlyNamed(dcs.Reach(s.Instr)), dcs.And(dcs.Atom("cmdBIND"), dcs.Atom("strategyRR")))
+		eq, wit := dcs.EquivStrict(dcs.Reach(s.Instr), dcs.And(dcs.Atom("cmdBIND"), dcs.Atom("strategyRR")))
 		c.check(eq, "C09.dispatch", "round-robin selection: condition", p.ipos(s.Instr), "used ⇔ command is BIND ∧ bind_pick_strategy is ROUND_ROBIN (other calls are unaffected)", "round-robin selection is not applied exactly to BIND calls under the ROUND_ROBIN strategy: "+wit)
 		c.check(s.Call.Args[1] == ssa.Value(gai.Params[1]), "C09.dispatch", "round-robin selection: context", p.ipos(s.Instr), "waits on the call's own context", "waiter is not given the call's context")
 	}
